@@ -93,6 +93,9 @@ def main():
                 exhausted = True
                 break
             try:
+                # run exactly what a replay file would hold: a JSON round trip is not the
+                # identity on strings (adjacent lone surrogates merge into one astral character)
+                case = json.loads(json.dumps(case))
                 res = run_one(mod, case, timeout)
             except Exception:
                 tot["errors"] += 1
